@@ -264,6 +264,14 @@ def call_external(self, st, name, args, kwargs, node):
             return self.raise_exc(st, type(e).__name__, node, "codecs", str(e))
         if isinstance(r, (str, bytes)):
             return [(st, "val", r)]
+    if name in ("bisect.bisect", "bisect.bisect_right", "bisect.bisect_left") and len(args) == 2 and not kwargs and not isinstance(args[0], Top):
+        import bisect as _bisect
+        kind_, seq_ = self.iter_values(st, args[0], node)
+        if kind_ == "concrete" and isinstance(args[1], (int, str)) and not isinstance(args[1], bool) and seq_ \
+                and all(type(x) is type(args[1]) for x in seq_):
+            return [(st, "val", getattr(_bisect, name.split(".")[1])(list(seq_), args[1]))]
+        if kind_ == "concrete" and not seq_:
+            return [(st, "val", 0)]
     if name == "unicodedata.normalize" and len(args) == 2 and not kwargs and all(isinstance(a, str) for a in args):
         import unicodedata as _ud
         try:
